@@ -1,6 +1,6 @@
 //! C08: digit/carry kernels, normalisation, shifts, encoding.
-use crate::rec::*;
-use crate::with_znx;
+use poulpy_verif_harness::rec::*;
+use poulpy_verif_harness::with_znx;
 use poulpy_cpu_ref::reference::znx::*;
 
 fn kernel(r: &Rec) -> Vec<Vec<i128>> {
@@ -104,3 +104,5 @@ pub fn generate(tier: &str, seed: u64) -> Vec<Rec> {
     }
     out
 }
+
+fn main() { poulpy_verif_harness::run_main(generate, exec) }
